@@ -103,6 +103,8 @@ RULE_TRIGGERS = [
     'class A:\n\n    def f(self): pass\n    def g(self): pass\n', 'def f(): pass\ndef g(): pass\n',
     '@d\n\ndef f(): pass\n', 'x = 1\n\n\n\n', 'x = 1  \n', '\n\nx = 1', 'x = 1\n# c\n    # d\ny\n', '#!shebang\n#:x\n#c\n',
     'from a import (b,\n    c)\n', 'a = b if c else \\\n    d\n', 'x = (  # c\n    1)\n', 'def f(a,\n    b): pass\n',
+    'x = 1' + ' ' * 75 + '#\n', '#' + ' ' * 85 + '\n', '# ' + 'a' * 90 + '\n', 'x = "' + 'a' * 90 + '"\n', 'def f():\n    return 1' + ' ' * 8 + '#   \n',
+    'x = 1  #' + ' ' * 30 + '\n', '#' * 100 + '\n', 'x = [' + '1, ' * 40 + ']\n', '# http://' + 'a' * 100 + '\n', 'x = 1  # http://' + 'a' * 100 + '\n',
     'if a: b\nelif c: d\nelse: e\n', 'while a: b; c\n', 'with a: b\n', 'class A: x = 1; y = 2\n',
 ]
 
